@@ -256,6 +256,76 @@ def e2e(ctx, rng, n):
             rs.close()
 
 
+def exchange_policy(ctx, rng):
+    """A token obtained by cross-client token exchange is released under the policy of the client that HOLDS it (its
+    add_claims, its allowed scopes), not under the policy of the client the subject token was issued to."""
+    import drv_C05
+    from idpyoidc.server.scopes import SCOPE2CLAIMS
+    users = json.load(open(srv.USERS))
+    POL = {"userinfo": ["email", "phone_number"], "introspection": ["email", "nickname"], "access_token": ["email", "address"]}
+    for rich, poor in (("client_1", "client_2"), ("client_2", "client_1"), ("client_12", "client_1")):
+        over = {rich: {"add_claims": {"always": copy.deepcopy(POL), "by_scope": {}}}}
+        old = sess.FIXED_AUTHZ
+        sess.FIXED_AUTHZ = drv_C05.EXCH_AUTHZ
+        try:
+            rs = sess.RealSession(oidc=True, jwt_access=True, client_over=over)
+        finally:
+            sess.FIXED_AUTHZ = old
+        try:
+            for point in ("userinfo", "introspection"):
+                rs.server.get_endpoint(point).kwargs["enable_claims_per_client"] = True
+            rs.sm.token_handler.handler["access_token"].kwargs["enable_claims_per_client"] = True
+            for subject_of, holder in ((rich, poor), (poor, rich)):
+                u = rng.choice(["diana", "babs"])
+                scopes = ["openid", "offline_access"]
+                o = rs.run(("authz", u, subject_of, scopes))
+                if o[0] != "ok":
+                    ctx.notes.append("exchange_policy: authz failed %r" % (o,))
+                    continue
+                rs.run(("tparse", subject_of, ("tok", o[1][0]), "same"))
+                p = rs.run(("proc", len(rs.parsed) - 1, None))
+                if p[0] != "ok":
+                    continue
+                at = rs.tokens[p[1]["access_token"]]
+                body = {"grant_type": drv_C05.TE, "subject_token": at, "subject_token_type": drv_C05.TT + "access_token", "audience": holder}
+                resp, err = drv_C05.token_call(rs, holder, body)
+                rec = {"exchange": True, "user": u, "subject_token_of": subject_of, "held_by": holder, "policy_client": rich, "refused": err}
+                if not resp:
+                    ctx.case_seen(rec, False)
+                    ctx.count("exchange-policy:refused")
+                    continue
+                t2 = resp["access_token"]
+                views = {"access_token": jwt_payload(t2)}
+                ui = rs.ep["userinfo"]
+                try:
+                    views["userinfo"] = dict(ui.process_request(ui.parse_request({}, http_info={"headers": {"authorization": "Bearer " + t2}}))["response_args"])
+                except Exception as e:
+                    views["userinfo"] = {}
+                ie = rs.ep["introspection"]
+                views["introspection"] = dict(ie.process_request(ie.parse_request(rs._token_req(holder, {"token": t2})))["response_args"])
+                allowed = rs.ctx.cdb[holder].get("allowed_scopes", list(SCOPE2CLAIMS.keys()))
+                tscope = resp.get("scope") or []
+                tscope = tscope.split() if isinstance(tscope, str) else list(tscope)
+                rec["released"] = {k: sorted(x for x in v if x in users[u]) for k, v in views.items()}
+                ctx.case_seen(rec, True)
+                ctx.count("exchange-policy:%s" % ("holder-has-policy" if holder == rich else "subject-client-has-policy"))
+                for point, payload in views.items():
+                    mod = module_of(rs.server, point)
+                    b = set(mod.kwargs.get("base_claims", {})) | set(mod.kwargs.get("always_add_claims", []) or [])
+                    if holder == rich:
+                        b |= set(POL[point])
+                    if mod.kwargs.get("add_claims_by_scope"):
+                        for sc in tscope:
+                            if sc in allowed:
+                                b |= set(SCOPE2CLAIMS.get(sc, []))
+                    attrs = {k for k in payload if k in users[u] and k not in PROTOCOL}
+                    if attrs - b:
+                        ctx.violation("e2e-beyond-bound", "%s of a token %s obtained by exchanging a token of %s contains %r beyond %r (the policy of %s)"
+                                      % (point, holder, subject_of, sorted(attrs - b), sorted(b), holder), rec)
+        finally:
+            rs.close()
+
+
 def order_independence(ctx, rng, n_orders):
     """What a flow releases does not depend on the flows processed before it: flows of different response types
     for one client (per-client always-add claims, secondary release point for response_type=id_token) in every
@@ -326,6 +396,7 @@ def run(ctx):
     order_independence(ctx, ctx.rng, 6 if ctx.quick else 24)
     unit_cases(ctx, ctx.rng, 400 if ctx.quick else 12000)
     e2e(ctx, ctx.rng, 3 if ctx.quick else 40)
+    exchange_policy(ctx, ctx.rng)
 
 
 def replay(ctx, rp):
